@@ -26,7 +26,7 @@ HARNESSES = [
   # scanners built on SDAI_String::STEPread (-> GetLiteralStr): run over the proven string-free contract of GetLiteralStr (assume-guarantee, lemma: C10 gls_equiv)
   H('scan_%02d' % w, 'irc', 'harness/C05/h_scan.c', irc_src_flags={'src/clutils/Str.cc': ['-DGetLiteralStr=GetLiteralStr__real']},
     defs={'quick': {'WHICH': w, 'NB': NBC[w], 'GLS_CONTRACT': 1, 'VSTR_CAP': 8, 'VSTREAM_CAP': 8, 'VOSTREAM_CAP': 8}, 'thorough': {'WHICH': w, 'NB': NBC[w] + 1, 'GLS_CONTRACT': 1, 'VSTR_CAP': 10, 'VSTREAM_CAP': 10, 'VOSTREAM_CAP': 8}},
-    unwind={'quick': NBC[w] + 7, 'thorough': NBC[w] + 8}, cflags=CMT, native_cflags=CMT, object_bits=10, timeout={'quick': 600, 'thorough': 3600},
+    unwind={'quick': NBC[w] + 7, 'thorough': NBC[w] + 8}, cflags=CMT, native_cflags=CMT, object_bits=10, timeout={'quick': 900, 'thorough': 3600},
     bounds='%s on every byte string of <= %d (%d) bytes over the Part 21 punctuation alphabet + letter/digit/blank/newline representatives, ending anywhere (premature EOF)' % (SCAN[w], NBC[w], NBC[w] + 1),
     samples=[{'bytes': "'a;'"}, {'bytes': "a';"}, {'bytes': "(()"}, {'bytes': "#1=a;"}, {'bytes': "a;"}, {'bytes': "('a')"}],
     out_of_claim='inputs longer than the bound; whole-file reads; the text collected while skipping', **dict(COMMON, stubs=COMMON['stubs'] + ['GetLiteralStr: replaced by GetLiteralStr_contract (proven equivalent in stream effect and emptiness of the result by C10 gls_equiv)'])) for w in (6, 7, 9)   # 8, 10 (PushPastImbedAggr, SkipSimpleRecord: recursive): witness twin not finished in 600 s at 4 bytes even over the contract
